@@ -127,7 +127,7 @@ def run(chk, tier, seed, replay):
             seen.add(key)
             reqs.append({"key": key, "derive": req["d"], "item": item, "tokens": False})
     # literals: every short string over an alphabet with 1-4 byte characters, as a format literal
-    alph = ["{", "}", ":", "0", "9", "a", "_", "$", ".", "*", "<", " ", "é", "€", "\U0001F600", "?"]
+    alph = ["{", "}", ":", "0", "9", "a", "_", "$", ".", "*", "<", " ", "é", "€", "\U0001F600", "?", "\u3000"]
     maxlen = 3 if tier == "quick" else 4
     lits = [""]
     frontier = [""]
@@ -136,7 +136,7 @@ def run(chk, tier, seed, replay):
         lits += frontier
     rnd = random.Random(seed)
     n_rand = 20000 if tier == "quick" else 300000
-    pieces = ["{", "}", "{{", "}}", "{}", "{0}", "{:>", "{a$", ".*", "18446744073709551616", "\U0001F600", "́", "‍", "x?", ":#?", "$", "_", "\\", "\"", "\n"]
+    pieces = ["{", "}", "{{", "}}", "{}", "{0}", "{:>", "{a$", ".*", "18446744073709551616", "\U0001F600", "́", "‍", "x?", ":#?", "$", "_", "\\", "\"", "\n", "\u3000}", "\u00a0}", "\u2003"]
     for _ in range(n_rand):
         lits.append("".join(rnd.choice(pieces) if rnd.random() < 0.7 else chr(rnd.choice([rnd.randrange(32, 127), rnd.randrange(0xA0, 0x2FF), rnd.randrange(0x4E00, 0x4E80), rnd.randrange(0x1F600, 0x1F640)]))
                             for _ in range(rnd.randrange(1, 16))))
